@@ -165,6 +165,8 @@ def run_session(exe, steps, eof=False, sync_timeout=120, capture=None, strict_be
     eng = Engine(exe)
     out_i, err_i = 0, 0
     pending = None          # (fen, legal lans) of a go whose bestmove has not been seen yet
+    pending_pv = [None]     # first move of the last `info pv` line of that go
+    pvs = []                # (fen, lan list) of every `info pv` line, checked for legality by the caller
     alive = True
     quit_sent = False
     for st in steps:
@@ -205,16 +207,34 @@ def run_session(exe, steps, eof=False, sync_timeout=120, capture=None, strict_be
             immediate = [re.sub(r"^(id name|id author).*", r"\1", l) for l in immediate]
         if immediate != st["lines"]:
             note(f"after `{cmd[:60]}`: stdout {immediate[:4]} but the session model expects {st['lines'][:4]}")
-        bms = [l.split(" ")[1] if " " in l else "" for l in got if l.startswith("bestmove")]
-        # bestmoves seen in this window answer, in order: the pending go (if any), then this go
-        for mv in bms:
+        # one ordered pass over the window: `info pv` lines belong to the search whose bestmove is still outstanding
+        # (the pending go if any, else this go); bestmoves answer, in order, the pending go (if any), then this go
+        for l in got:
+            this_open = first == "go" and st["lans"] is not None and st.get("_answered") is None and not st["book"]
+            if l.startswith("info pv"):
+                lans_ = l.split(" ")[2:]
+                if pending is not None:
+                    pvs.append((pending[0], lans_)); pending_pv[0] = lans_[0] if lans_ else ""
+                elif this_open:
+                    pvs.append((st["fen_before"], lans_)); st["_pv"] = lans_[0] if lans_ else ""
+                else:
+                    note(f"`{l[:60]}` without a running search")
+                continue
+            if not l.startswith("bestmove"):
+                continue
+            mv = l.split(" ")[1] if " " in l else ""
             if pending is not None:
                 if mv not in pending[1]:
                     note(f"bestmove {mv} is not legal in {pending[0]}")
+                if pending_pv[0] is not None and mv != pending_pv[0]:
+                    note(f"bestmove {mv} is not the first move of the last reported line ({pending_pv[0]} …) of {pending[0]}")
                 pending = None
+                pending_pv[0] = None
             elif first == "go" and st["lans"] is not None and st.get("_answered") is None:
                 if mv not in st["lans"]:
                     note(f"bestmove {mv} is not legal in {st['fen_before']}")
+                if st.get("_pv") is not None and mv != st["_pv"]:
+                    note(f"bestmove {mv} is not the first move of the last reported line ({st['_pv']} …) of {st['fen_before']}")
                 st["_answered"] = True
             else:
                 note(f"bestmove {mv} without a pending go (after `{cmd[:40]}`)")
@@ -222,12 +242,14 @@ def run_session(exe, steps, eof=False, sync_timeout=120, capture=None, strict_be
             if pending[1] and strict_bestmove:
                 note(f"`{cmd[:40]}` joined the running search of {pending[0]} but no bestmove was printed")
             pending = None
+            pending_pv[0] = None
         if first == "go":
             if st["book"]:
                 if not st.get("_answered"):
                     note(f"book position {st['fen_before']}: no immediate bestmove")
             elif not st.get("_answered"):
                 pending = (st["fen_before"], st["lans"]) if st["lans"] else None
+                pending_pv[0] = st.get("_pv")
             if not st["lans"] and st.get("_answered"):
                 note(f"a move was reported for {st['fen_before']} which has no legal move")
         if first == ".state":
@@ -263,6 +285,7 @@ def run_session(exe, steps, eof=False, sync_timeout=120, capture=None, strict_be
     else:
         eng.close(5)
     if capture is not None:
+        capture["pvs"] = pvs
         capture["bestmoves"] = [l for l in eng.out if l and l.startswith("bestmove")]
         capture["scores"] = [l for l in eng.out if l and l.startswith("info score")]
     return problems
